@@ -52,7 +52,7 @@ META = dict(
     technique="Coq proof over executable Gallina state machine + replay of real resilient runs",
     design_ref="DESIGN.md §5 C27",
 )
-N_QUICK, N_THOROUGH = 120, 1200
+N_QUICK, N_THOROUGH = 100, 1000
 PARALLEL = 8
 SHARD = 60
 RUN_TIMEOUT = 120
@@ -200,6 +200,9 @@ def _real(case):
         limit = time.time() + 60
         while time.time() < limit and orch.mgt.dist_count < 1:
             time.sleep(0.05)
+            b = snap.get("before")
+            if b is not None and _unreplicated(b, case["leaving"]):
+                break       # hypothesis of C27 not met (see oracle): nothing will ever happen
         res["repair_finished"] = orch.mgt.dist_count >= 1
         res["repair_wait"] = time.time() - t0
         time.sleep(1.5)
@@ -373,6 +376,13 @@ def run_impl(case):
     return _crafted_isolated(case)
 
 
+def _unreplicated(before, leaving):
+    """orphaned computations without any surviving replica holder: replication did not reach
+    the level the property assumes (replica placement is C25's subject)"""
+    return sorted(c for c, h in before["hosts"].items()
+                  if h in leaving and not [a for a in before["replicas"].get(c, []) if a not in leaving])
+
+
 # ------------------------------------------------------------------ oracle
 def _problems(case, o):
     """[(finding id or None, text)] -- independent statement of C27 on the observed end state"""
@@ -380,6 +390,8 @@ def _problems(case, o):
     nodes = o["static"]["nodes"]
     leaving = set(case["leaving"])
     before = o["before"]
+    if before is not None and _unreplicated(before, case["leaving"]):
+        return []       # hypothesis not met: counted in the histogram as 'real_unreplicated'
     if not o.get("repair_finished"):
         return [(None, "the repair did not complete within 60 s")]
     orphaned = [c for c in nodes if before["hosts"].get(c) in leaving]
@@ -559,6 +571,8 @@ def histogram(cases, obs):
             for x in e["outs"]:
                 if x[0] == "status":
                     h["status/" + x[1]] = h.get("status/" + x[1], 0) + 1
+        if c["kind"] == "real" and o.get("before") and _unreplicated(o["before"], c["leaving"]):
+            h["real_unreplicated"] = h.get("real_unreplicated", 0) + 1
         if c["kind"] == "real":
             h["real_repairs_with_orphans"] = h.get("real_repairs_with_orphans", 0) + (
                 1 if any(e["ev"]["t"] == "repair_done" for e in o["trace"]) else 0)
